@@ -110,7 +110,7 @@ func (s *session) project() tf.M {
 	k := s.d.w.App.TSSKeeper
 	ctx := s.r.Ctx
 	st := tf.M{"h": int(s.r.Height), "n": s.n, "t": s.t, "st": "none", "att": 0, "S": []int{}, "signed": []int{},
-		"pend": false, "sig": tf.M{"present": false, "valid": false}}
+		"pend": false, "sig": tf.M{"present": false, "valid": false}, "asgOK": true}
 	if s.sid == 0 {
 		return st
 	}
@@ -137,6 +137,7 @@ func (s *session) project() tf.M {
 		}
 		sort.Ints(ids)
 		st["S"] = ids
+		st["asgOK"] = assignmentOK(sg, sa)
 	}
 	signed := []int{}
 	for _, e := range k.GetPartialSignaturesWithKey(ctx, s.sid, sg.CurrentAttempt) {
@@ -293,6 +294,30 @@ func wrongScalar(z, k tss.Scalar, variant int) tss.Scalar {
 	}
 	b := x.Bytes()
 	return tss.Scalar(b[:])
+}
+
+// assignmentOK recomputes the announced assignment of an attempt from the public inputs: commitment over (member id,
+// D, E) of the committee, binding factor of each member from ITS member id, public nonce D + rho*E, group nonce = sum.
+func assignmentOK(sg tsstypes.Signing, sa tsstypes.SigningAttempt) bool {
+	ams := tsstypes.AssignedMembers(sa.AssignedMembers)
+	commitment, err := tss.ComputeCommitment(ams.MemberIDs(), ams.PubDs(), ams.PubEs())
+	if err != nil {
+		return false
+	}
+	var nonces tss.Points
+	for _, am := range ams {
+		bf, err := tss.ComputeOwnBindingFactor(am.MemberID, sg.Message, commitment)
+		if err != nil || !bytes.Equal(bf, am.BindingFactor) {
+			return false
+		}
+		pn, err := tss.ComputeOwnPubNonce(am.PubD, am.PubE, bf)
+		if err != nil || !bytes.Equal(pn, am.PubNonce) {
+			return false
+		}
+		nonces = append(nonces, pn)
+	}
+	gn, err := tss.ComputeGroupPublicNonce(nonces...)
+	return err == nil && bytes.Equal(gn, sg.GroupPubNonce)
 }
 
 // dummySig is a well-formed signature that belongs to nothing.
